@@ -30,7 +30,15 @@ def acq_entry(shape, api, mode, blocking, style, env, keystyle="owned", release=
         L.append("w().wait_ok_mask.set(%s);" % shape.nested_owned_mask)
     if shape.kind == "retry" or shape.name.startswith("n_rt"):
         L.append("w().check_hold_wait.set(true);")
+    if is_pois(shape) and env == "q":
+        # poison is sticky: the wrapper may have been poisoned by an earlier panic
+        L.append("if %s && any_bool(T_MISC | 5) {" % oracle_try(shape, "w"))
+        L.append("\tlet r0 = catch_unwind(AssertUnwindSafe(|| { let g = match coll.lock(key()) { Ok(g) => g, Err(e) => e.into_inner() }; eng::inject_panic(); drop(g); }));")
+        L.append("\tcore::mem::forget(r0);")
+        L.append("\tvcheck!(coll.is_poisoned() && !w().held_any(), M_POISON_MODEL);")
+        L.append("}")
     L.append("let snap0 = w().snapshot();")
+    L.append("let b0 = w().blocking_ops.get();")
     L.append("let orc = %s;" % oracle_try(shape, mode))
     held_ok = "w().held_x.get() == %s && w().held_s.get() == %s" % (xm, sm)
     if style == "guard":
@@ -111,7 +119,7 @@ def acq_entry(shape, api, mode, blocking, style, env, keystyle="owned", release=
             L.append("vcheck!(ThreadKey::get().is_none(), M_KEY_MODEL);")
             L.append("drop(k);")
     if not blocking:
-        L.append("vcheck!(w().blocking_ops.get() == 0 && w().wait_events.get() == 0, M_BLOCKING_IN_TRY);")
+        L.append("vcheck!(w().blocking_ops.get() == b0 && w().wait_events.get() == 0, M_BLOCKING_IN_TRY);")
         if env == "q":
             L.append("vcheck!(w().snapshot() == snap0, M_STATE_CHANGED);")
     if shape.kind == "retry" or shape.name.startswith("n_rt"):
@@ -294,6 +302,34 @@ def panic_entry(shape, api, mode, blocking, style, kind, keystyle="owned"):
     return nm, fn_wrap(nm, L)
 
 
+def indrop_entry(shape, api, mode, blocking):
+    """the scoped call runs inside a destructor while the thread is already unwinding; its closure may panic and the
+    destructor catches that panic"""
+    xm, sm = held_masks(shape, mode)
+    held_ok = "w().held_x.get() == %s && w().held_s.get() == %s" % (xm, sm)
+    L = ["w().reset(false);"] + shape.setup + pre_stmts(shape) + shape.build
+    L.append("let all_free = %s;" % oracle_try(shape, "w"))
+    L.append("w().user_panic_armed.set(true);")
+    clos = "|_d| { vreach!(11); vcheck!(%s, M_NOT_HELD_IN_SECTION); user_point(1); vreach!(12); 7u8 }" % held_ok
+    L.append("let r = catch_unwind(AssertUnwindSafe(|| {")
+    L.append("\tlet _d = OnDrop(|| {")
+    L.append("\t\tlet r2 = catch_unwind(AssertUnwindSafe(|| { let _ = coll.%s(key(), %s); }));" % (api, clos))
+    L.append("\t\tcore::mem::forget(r2);")
+    L.append("\t});")
+    L.append("\teng::inject_panic();")
+    L.append("}));")
+    L.append("vcheck!(r.is_err(), M_NO_PANIC);")
+    L.append("core::mem::forget(r);")
+    L.append("w().user_panic_armed.set(false);")
+    L.append("vcheck!(w().bad_release.get() == 0, M_BAD_RELEASE);")
+    L.append("vcheck!(!w().held_any(), M_LEAK);")
+    L.append("vcheck!(key_is_back(), M_KEY_MODEL);")
+    L.append("vreach!(4);")
+    L.append("vreach!(3);")
+    nm = "%s__%s__user_indrop" % (shape.name, api)
+    return nm, fn_wrap(nm, L)
+
+
 def gen_panic(tier, kind, kinds=None, fixed_seed=None):
     from . import gen
     out = [HEADER]
@@ -312,6 +348,10 @@ def gen_panic(tier, kind, kinds=None, fixed_seed=None):
             ks = ["owned"] + (["lent"] if style == "scoped" else [])
             for keystyle in ks:
                 nm, txt = panic_entry(sh, api, mode, blocking, style, kind, keystyle)
+                names.append(nm)
+                out.append(txt)
+            if kind == "user" and style == "scoped":
+                nm, txt = indrop_entry(sh, api, mode, blocking)
                 names.append(nm)
                 out.append(txt)
     return "\n".join(out), names
@@ -352,7 +392,15 @@ def pois_routes(name):
     if k == "R":
         R.append(("own_read", False, ["let g = " + unwrap % "po.read(key())" + ";", "user_point(S);", "drop(g);"]))
         R.append(("own_scoped_read", False, ["po.scoped_read(key(), |_d| { user_point(S); });"]))
+    # clear_poison while a (possibly Err) guard is live, then a panic inside that same hold
+    R.append(("own_lock_clear_inside", True, ["let g = " + unwrap % "po.lock(key())" + ";", "po.clear_poison();", "user_point(S);", "drop(g);"]))
+    if coll is None:
+        # another thread holds the lock and panics (poisoning it) while this thread is already waiting in lock()/read()
+        R.append(("own_lock_env_poisons", True, ["ENVPOISON lock"]))
+        if k == "R":
+            R.append(("own_read_env_poisons", True, ["ENVPOISON read"]))
     if coll:
+        R.append(("coll_lock_clear_inside", True, ["let g = coll.lock(key());", "po.clear_poison();", "user_point(S);", "drop(g);"]))
         R.append(("coll_lock", True, ["let g = coll.lock(key());", "user_point(S);", "drop(g);"]))
         R.append(("coll_try_lock", True, ["match coll.try_lock(key()) { Ok(g) => { user_point(S); drop(g); } Err(kb) => { drop(kb); } }"]))
         R.append(("coll_scoped_lock", True, ["coll.scoped_lock(key(), |_d| { user_point(S); });"]))
@@ -363,12 +411,40 @@ def pois_routes(name):
     return R
 
 
-ROUTE_IDS = {"own_lock": 0, "own_try_lock": 1, "own_scoped_lock": 2, "own_scoped_try_lock": 3, "own_read": 4, "own_scoped_read": 5,
+ROUTE_IDS = {"own_lock_clear_inside": 12, "coll_lock_clear_inside": 13, "own_lock_env_poisons": 14, "own_read_env_poisons": 15, "own_lock": 0, "own_try_lock": 1, "own_scoped_lock": 2, "own_scoped_try_lock": 3, "own_read": 4, "own_scoped_read": 5,
              "coll_lock": 6, "coll_try_lock": 7, "coll_scoped_lock": 8, "coll_scoped_try_lock": 9, "coll_read": 10,
              "coll_scoped_read": 11}
 
 
+POIS_KIND = ["PM"]
 POIS_PROBE = """
+fn env_poison_pm(p: usize) {
+	unsafe { &*(p as *const PM) }.verif_poison()
+}
+fn env_poison_pr(p: usize) {
+	unsafe { &*(p as *const PR) }.verif_poison()
+}
+/// the environment (another thread) holds the wrapped lock exclusively
+trait EnvHold {
+	unsafe fn env_hold(&self);
+}
+impl EnvHold for PM {
+	unsafe fn env_hold(&self) {
+		let m = self.verif_inner();
+		raw_m(m).st.set(ST_ENV);
+		raw_m(m).sync();
+	}
+}
+impl EnvHold for PR {
+	unsafe fn env_hold(&self) {
+		let r = self.verif_inner();
+		raw_r(r).x.set(ST_ENV);
+		raw_r(r).sync();
+	}
+}
+unsafe fn po_raw_env_hold<P: EnvHold>(p: &P) {
+	p.env_hold()
+}
 fn probe_pm(p: usize) -> bool {
 	unsafe { &*(p as *const PM) }.is_poisoned()
 }
@@ -382,6 +458,24 @@ def pois_step(routes, idx, site):
     """rust for executing route #idx (python int) wrapped in catch_unwind, updating the model"""
     nm, excl, lines = routes[idx]
     L = ["eng::event(E_MARK, %d, 0);" % (9100 + ROUTE_IDS[nm]), "w().probe_last.set(2);"]
+    if lines and lines[0].startswith("ENVPOISON"):
+        api = lines[0].split()[1]
+        kind = "r" if "PR" in POIS_KIND[0] else "m"
+        L.append("if %s {" % ("raw_r(&o_probe()).x.get() == 0" if False else "true"))
+        L.append("\tw().wait_hook.set(Some(env_poison_p%s)); w().wait_hook_arg.set(&po as *const P%s as usize); w().wait_hook_lock.set(6);" % (kind, kind.upper()))
+        L.append("\tunsafe { po_raw_env_hold(&po) };")
+        L.append("\tmatch po.%s(key()) {" % api)
+        L.append("\t\tOk(g) => { vcheck!(false, M_POISON_MODEL); drop(g); }")
+        L.append("\t\tErr(e) => { let g = e.into_inner(); vcheck!(w().held_any(), M_NOT_ALL_HELD); drop(g); }")
+        L.append("\t}")
+        L.append("\tmust = true; may = true;")
+        L.append("}")
+        L.append("vcheck!(!w().held_any(), M_LEAK);")
+        L.append("let p = po.is_poisoned();")
+        L.append("vcheck!(!must || p, M_POISON_MODEL);")
+        return L
+    if nm.endswith("_clear_inside"):
+        L.append("must = false; may = false;")
     L.append("let r = catch_unwind(AssertUnwindSafe(|| {")
     L += ["\t" + l.replace("S", str(site)) if "user_point(S)" in l else "\t" + l for l in lines]
     L.append("}));")
@@ -403,6 +497,7 @@ def pois_step(routes, idx, site):
 
 def pois_entry(name, ia):
     setup, coll, k = POIS_SHAPES[name]
+    POIS_KIND[0] = "P" + k
     routes = pois_routes(name)
     L = ["w().reset(false);"] + setup
     L.append("w().probe_fn.set(Some(probe_p%s)); w().probe_arg.set(&*po as *const P%s as usize); w().probe_lock.set(6);" % (k.lower(), k) if name == "ow_pm" else
@@ -719,8 +814,10 @@ def order_build(coll, kinds, prefix, tagbase, nested=None):
     return st
 
 
-def order_entry(ca, ka, cb, kb, mode="lock", nested_a=None, nested_b=None, owned=False):
-    L = ["w().reset(false);", "let u = universe();"]
+def order_entry(ca, ka, cb, kb, mode="lock", nested_a=None, nested_b=None, owned=False, env="q"):
+    L = ["w().reset(%s);" % ("true" if env == "a" else "false"), "let u = universe();"]
+    if env == "a":
+        L.append("w().interference_left.set(1);")
     L += order_build(ca, ka, "a", 0, nested_a)
     if owned:
         # an owned group listed inside collection B is one indivisible unit at its own address
@@ -751,8 +848,8 @@ def order_entry(ca, ka, cb, kb, mode="lock", nested_a=None, nested_b=None, owned
         L.append("vcheck!(p6 != 99 && p7 == p6 + 1, M_ORDER);")
     L.append("vcheck!(!w().held_any(), M_HELD_AFTER_ERR);")
     L.append("vreach!(3);")
-    nm = "ord_%s%s_%s__%s%s_%s__%s%s" % (ca, ("_n" + nested_a) if nested_a else "", ka.lower(), cb, ("_n" + nested_b) if nested_b else "",
-                                      kb.lower(), mode, "_owned" if owned else "")
+    nm = "ord_%s%s_%s__%s%s_%s__%s%s%s" % (ca, ("_n" + nested_a) if nested_a else "", ka.lower(), cb, ("_n" + nested_b) if nested_b else "",
+                                        kb.lower(), mode, "_owned" if owned else "", "_contended" if env == "a" else "")
     return nm, fn_wrap(nm, L)
 
 
@@ -807,6 +904,12 @@ def gen_order(tier):
                    ("boxed", "MRM", "ref", "RM", "lock", None, None, True)]
     for c in combos:
         nm, txt = order_entry(*c)
+        names.append(nm)
+        out.append(txt)
+    # the same order must be used when members are contended (other threads hold some of them)
+    for c in [("boxed", "MR", "ref", "MRM", "lock", None, None, False), ("ref", "RR", "boxed", "RRR", "read", None, None, False),
+              ("boxed", "RRR", "ref", "RR", "read", None, None, False)]:
+        nm, txt = order_entry(*c, env="a")
         names.append(nm)
         out.append(txt)
     return "\n".join(out), names
@@ -1380,7 +1483,8 @@ def na_entry(shape, variant):
                 L.append("{ let _cm = coll.child_mut(); }")
                 L.append(NA_NOOPS + " " + NA_CHECK)
             if shape.kind == "pois":
-                L.append("{ let _gm = coll.get_mut(); }")
+                if shape.name != "po_bx":
+                    L.append("{ let _gm = coll.get_mut(); }")
                 L.append("{ let _cm = coll.child_mut(); }")
                 L.append(NA_NOOPS + " " + NA_CHECK)
             if any_bool_stmt():
@@ -1423,6 +1527,9 @@ pub struct PD(pub u8);
 impl core::fmt::Debug for PD {
 	fn fmt(&self, f: &mut core::fmt::Formatter<'_>) -> core::fmt::Result {
 		user_point(7);
+		if any_bool(T_MISC | 8) {
+			return Err(core::fmt::Error);
+		}
 		f.write_str("pd")
 	}
 }
